@@ -172,42 +172,45 @@ func (s *State) assume(t Term) {
 }
 
 type Exec struct {
-	P          *Prog
-	fn         *ssa.Function
-	fname      string
-	c          *Contract
-	pkg        *types.Package
-	nfresh     int
-	vcs        []*VC
-	decls      map[string]string
-	axioms     map[string][]string
-	loops      []*ssa.BasicBlock
-	loopOf     map[*ssa.BasicBlock]map[*ssa.BasicBlock]bool
-	paths      int
-	trusted    map[string]bool // trusted contracts / assumptions used
-	params     []NamedVal
-	maxAllocs  int
-	relTag     string
-	noSafety   bool
-	instDone   map[string]bool
-	recDepth   map[string]int
-	noMergeTop bool
-	covers     bool   // generate vacuity covers (thorough tier)
-	coverProp  string // ... for the clauses of this property only
-	coverVCs   []*VC
-	noMergeAll bool              // keep every path through inlined helpers apart (many small conjunctive VCs)
-	onlyProp   string            // generate only the obligations tagged with this property
-	rename     map[string]string // parameter renaming for the second copy of a self-composed run
-	collect    *[]*State
-	instDepth  int // how deep contracts of applications inside instantiated contracts are unfolded
-	recDone    map[string]bool
-	recPending map[string]bool
-	recName    map[string]string
-	lemmaText  map[string]string
-	loopsDone  map[*ssa.Function]bool
-	loopOrd    map[*ssa.BasicBlock]int
-	loopCon    map[*ssa.BasicBlock]*Contract
-	shared     map[string]string // body -> name of the shared definition
+	P             *Prog
+	fn            *ssa.Function
+	fname         string
+	c             *Contract
+	pkg           *types.Package
+	nfresh        int
+	vcs           []*VC
+	decls         map[string]string
+	axioms        map[string][]string
+	loops         []*ssa.BasicBlock
+	loopOf        map[*ssa.BasicBlock]map[*ssa.BasicBlock]bool
+	paths         int
+	trusted       map[string]bool // trusted contracts / assumptions used
+	params        []NamedVal
+	maxAllocs     int
+	relTag        string
+	noSafety      bool
+	instDone      map[string]bool
+	recDepth      map[string]int
+	noMergeTop    bool
+	covers        bool   // generate vacuity covers (thorough tier)
+	coverProp     string // ... for the clauses of this property only
+	coverVCs      []*VC
+	renames       map[string]string // declared local that no longer exists -> current local it is read as
+	renamePerm    int               // which pairing of renamed locals to try (0 = source order)
+	renameChoices int               // number of pairings there are
+	noMergeAll    bool              // keep every path through inlined helpers apart (many small conjunctive VCs)
+	onlyProp      string            // generate only the obligations tagged with this property
+	rename        map[string]string // parameter renaming for the second copy of a self-composed run
+	collect       *[]*State
+	instDepth     int // how deep contracts of applications inside instantiated contracts are unfolded
+	recDone       map[string]bool
+	recPending    map[string]bool
+	recName       map[string]string
+	lemmaText     map[string]string
+	loopsDone     map[*ssa.Function]bool
+	loopOrd       map[*ssa.BasicBlock]int
+	loopCon       map[*ssa.BasicBlock]*Contract
+	shared        map[string]string // body -> name of the shared definition
 }
 
 // share names a large term so that it is not textually duplicated by the
@@ -913,6 +916,7 @@ func (x *Exec) runBlock(st *State, b *ssa.BasicBlock) {
 	}
 	if body, isLoop := x.loopOf[b]; isLoop {
 		ord := x.loopOrdinal(b)
+		x.indexLoopAsRange(st, b, nphi)
 		if st.open[b] {
 			// back edge: re-establish invariant, variant decreases, allocs unchanged
 			x.checkInvariants(st, b, ord, "preserve")
@@ -943,6 +947,7 @@ func (x *Exec) runBlock(st *State, b *ssa.BasicBlock) {
 			}
 			st.assume(x.wfA(st, v.T, phi.Type()))
 		}
+		x.indexLoopAsRange(st, b, nphi)
 		written := x.heapsWrittenIn(body)
 		for _, h := range sortedKeys(written) {
 			s := written[h]
@@ -1400,7 +1405,7 @@ func (x *Exec) hintsAt(st *State, name string, in *ssa.DebugRef) {
 		return
 	}
 	for i, h := range x.c.Hints {
-		if h.Label != name {
+		if h.Label != name && x.localRenames()[h.Label] != name {
 			continue
 		}
 		key := fmt.Sprintf("%d@%p", i, in.Block())
@@ -1416,4 +1421,49 @@ func (x *Exec) hintsAt(st *State, name string, in *ssa.DebugRef) {
 		x.addVC(st, "invariant", fmt.Sprintf("hint/%s#%d", name, i), h.Prop, in.Pos(), t, h.Src)
 		st.assume(t)
 	}
+}
+
+// indexLoopAsRange: contracts written for a `for ... range` loop name the
+// hidden induction variable `rangeindex` (-1 before the first element, then
+// the index of the element last started). When the loop has been rewritten as
+// `for i := 0; i < n; i++`, its header has no such register; if it has exactly
+// one integer register that starts at 0 and is incremented by 1, `rangeindex`
+// is read as that register minus one, which is the same quantity.
+func (x *Exec) indexLoopAsRange(st *State, b *ssa.BasicBlock, nphi int) {
+	var cand *ssa.Phi
+	for _, in := range b.Instrs[:nphi] {
+		phi := in.(*ssa.Phi)
+		if phi.Comment == "rangeindex" || phi.Comment == "rangeint.iter" {
+			return
+		}
+		bt, ok := phi.Type().Underlying().(*types.Basic)
+		if !ok || bt.Kind() != types.Int || len(phi.Edges) != 2 {
+			continue
+		}
+		zero, step := false, false
+		for _, e := range phi.Edges {
+			if c, ok := e.(*ssa.Const); ok && c.Value != nil && c.Value.ExactString() == "0" {
+				zero = true
+			}
+			if bo, ok := e.(*ssa.BinOp); ok && bo.Op == token.ADD && bo.X == ssa.Value(phi) {
+				if c, ok := bo.Y.(*ssa.Const); ok && c.Value != nil && c.Value.ExactString() == "1" {
+					step = true
+				}
+			}
+		}
+		if zero && step {
+			if cand != nil {
+				return // ambiguous
+			}
+			cand = phi
+		}
+	}
+	if cand == nil {
+		return
+	}
+	v := st.vals[cand]
+	if v.T.IsZero() {
+		return
+	}
+	st.names["rangeindex"] = Val{T: Sub(v.T, Int(1)), Ty: cand.Type()}
 }
